@@ -45,6 +45,15 @@ on a bound, a repeated observation, an empty search set, a failed GP fit).  Avoi
 harmless and that only the combination breaks the property.
 
 """,
+"shape": """## Focus for this task
+
+Your change must be a SHAPE / DTYPE / CONTAINER-TYPE slip: something that behaves identically for the usual
+(1, D) float64 ndarray inputs and float return values, and differs only for another VALID spelling of the same data -
+1-D arrays, Python lists / tuples / scalars, integer dtype, float32, 0-d arrays, numpy scalar vs Python float return
+values, (value, sd) given as a list-like, D = 1 given as plain numbers, a boolean vs float constraint return, an
+(N,) vs (N, 1) column.  The property must break for such a spelling while the canonical spelling stays bit-identical.
+
+""",
 "numeric": """## Focus for this task
 
 Your change must be a NUMERICAL / BOUNDARY slip: a strict comparison turned non-strict (or the reverse), a tolerance
